@@ -218,7 +218,11 @@ def checkResp (st : SState) (w : Nat × String × Nat × Bool × String) : SStat
   else
     match st.outst.find? (fun o => o.c = c ∧ o.id = id) with
     | none =>
-      if st.answered.contains (c, id) then
+      -- D19: a pending request of this connection with id ≥ 2^32 whose low 32 bits are this id
+      if let some o := st.outst.find? (fun o => o.c = c ∧ idWrap ≤ o.id ∧ o.id % idWrap = id) then
+        ({ st with outst := removeFirst (fun x => x.c = c ∧ x.id = o.id) st.outst, answered := (c, o.id) :: st.answered },
+         some s!"C02/request-id-truncated c{c} id={o.id} route={o.route} was answered with id {id} (= id mod 2^32)")
+      else if st.answered.contains (c, id) then
         (st, some s!"C02/response-duplicated c{c} id={id} was answered more than once")
       else (st, some s!"C02/response-duplicated c{c} received a response id={id} to a request it has not pending")
     | some o =>
@@ -255,20 +259,29 @@ def firstSome : List (Option String) → Option String
   | some x :: _ => some x
   | none :: xs => firstSome xs
 
-def checkFlush (st : SState) : Option String :=
-  match st.outst with
-  | o :: _ =>
-    let sfx := if o.cls = "no-target" then "-no-target" else if o.cls = "notify-method" then "-notify-method" else ""
-    some s!"C02/request-unanswered{sfx} c{o.c} id={o.id} route={o.route} got no response within 45 s"
-  | [] =>
-    firstSome (st.sent.map fun e =>
-      if e.notify then
-        let want := if e.deliverable then 1 else 0
-        if e.cnt ≠ want then
-          some s!"C02/notify-not-delivered-once {e.desc}: handler ran {e.cnt} time(s), expected {want}"
-        else none
-      else if e.cnt > 1 then some s!"C02/response-duplicated {e.desc}: handler ran {e.cnt} times"
-      else none)
+/-- the violation to report for one observation: an ordinary one if there is any, else the known
+finding D19 -/
+def pickViolation (vs : List (Option String)) : Option String :=
+  let all := vs.filterMap id
+  match all.find? (fun t => ¬ t.startsWith "C02/request-id-truncated") with
+  | some t => some t
+  | none => all.head?
+
+def checkFlush (st : SState) : List (Option String) :=
+  (st.outst.map fun o =>
+    if idWrap ≤ o.id ∧ o.id % idWrap = 0 then
+      some s!"C02/request-id-truncated c{o.c} id={o.id} route={o.route} was handled as a notification (id mod 2^32 = 0) and never answered"
+    else
+      let sfx := if o.cls = "no-target" then "-no-target" else if o.cls = "notify-method" then "-notify-method" else ""
+      some s!"C02/request-unanswered{sfx} c{o.c} id={o.id} route={o.route} got no response within 45 s") ++
+  (st.sent.map fun e =>
+    if e.notify then
+      let want := if e.deliverable then 1 else 0
+      if e.cnt ≠ want then
+        some s!"C02/notify-not-delivered-once {e.desc}: handler ran {e.cnt} time(s), expected {want}"
+      else none
+    else if e.cnt > 1 then some s!"C02/response-duplicated {e.desc}: handler ran {e.cnt} times"
+    else none)
 
 def parseObs (obs : String) : Option (List String × List String) :=
   let ws := words obs
@@ -288,8 +301,8 @@ def observe (st : SState) (obs : String) (isFlush : Bool) : SState × String :=
       match parseInv r with
       | none => acc
       | some x => let (s', v) := checkInv acc.1 x; (s', acc.2 ++ [v])) (st1, [])
-    let vf := if isFlush then [checkFlush st2] else []
-    match firstSome (v1 ++ v2 ++ vf) with
+    let vf := if isFlush then checkFlush st2 else []
+    match pickViolation (v1 ++ v2 ++ vf) with
     | some t => (st2, "VIOLATION " ++ t)
     | none => (st2, "ok")
 
